@@ -327,4 +327,4 @@ def instances(tier):
 LEVEL_TEXT = ("Translation validation of the PYPOWER import: the real _from_ppc_branch / _from_ppc_bus convert a symbolic ppc row into element "
               "parameters (captured at the create_* call), the real pandapower builders convert those parameters back, and z3 shows the "
               "two-port / the bus injections of the rebuilt ppc identical to the original, for all values within the converter's scope.")
-LEVEL_NOTE = ("Trusted: the create_* table writers (captured), Newton, z3. Bounds: one branch per instance; gens, gencost, file I/O outside.")
+LEVEL_NOTE = ("Trusted: the create_* table writers (captured), Newton, z3. Bounds: one branch per instance; gen import as one instance; gencost and file I/O outside.")
